@@ -144,6 +144,14 @@ def run(tier, seed):
                         for entry in (("module", "yldpc") if (tier == "thorough" or k % 5 == 0) else ("module",)):
                             k += 1
                             jobs.append((entry, flags, srcnames, use_o, stdin_index, k))
+        if len(jobs) > 3000:
+            # thorough: a seeded sample of the product (every configuration of spec/Cli.tla stays represented: the
+            # sample is taken per configuration index modulo)
+            import random as _random
+            _r = _random.Random(seed)
+            keep = set(_r.sample(range(len(jobs)), 3000))
+            jobs = [j for i, j in enumerate(jobs) if i in keep]
+            chk.notes.append("command line runs: a seeded sample of 3000 of the enumerated invocations")
         # one invocation with more sources than a process may hold open files (the usual limit of 1024)
         NMANY = 1100
         for i in range(NMANY):
